@@ -348,7 +348,8 @@ theorem mem_anchorsOf_page {s : Sys} (w : WF s) {p : Nat} (hp : p < s.n) (a : Na
       p ∈ pages s ∧ ∃ c, c ∈ methods s p ∧ (a = (s.ob c).name ∨ a = fullName s c) := by
   unfold anchorsOf
   have hne : ¬ (pageFile s p = .summary .classIndex) := pageFile_ne_summary s p _
-  simp only [hne, if_false, List.append_nil, List.mem_flatMap, List.mem_filter, decide_eq_true_eq,
+  have hne2 : ¬ (pageFile s p = .summary .nameIndex) := pageFile_ne_summary s p _
+  simp only [hne, hne2, if_false, List.append_nil, List.mem_flatMap, List.mem_filter, decide_eq_true_eq,
     List.mem_cons, List.not_mem_nil, or_false]
   constructor
   · rintro ⟨q, ⟨hq, he⟩, c, hc, ha⟩
@@ -515,7 +516,9 @@ def Origin (s : Sys) (e : Emit) : Prop :=
   | .modIndex =>
       e.ctx = some e.page ∧ e.marked = some (isPrivate s e.target) ∧ visible s e.target = true ∧
       ∃ r, r ∈ s.roots ∧ Desc s r e.target
-  | .classIndex | .nameIndex | .undoc => e.ctx = some e.page ∧ visible s e.target = true
+  | .classIndex => e.ctx = some e.page ∧ visible s e.target = true ∧ e.marked = some (classNodePrivate s s.n e.target)
+  | .nameIndex => e.ctx = some e.page ∧ visible s e.target = true ∧ e.marked = some (ctxPrivate s e.target)
+  | .undoc => e.ctx = some e.page ∧ visible s e.target = true
   | .allDocs => e.ctx = none ∧ e.marked = some ((s.ob e.target).privacy == .priv) ∧ visible s e.target = true
   | .indexRoots => e.ctx = some e.page ∧ e.target ∈ s.roots ∧ visible s e.target = true
 
@@ -1031,10 +1034,10 @@ theorem origin_summary {s : Sys} {e : Emit} (h : e ∈ summaryEmits s) : Origin 
     obtain ⟨c, hc, he⟩ := List.mem_flatMap.mp h
     have hv := mem_classIndexListed hc
     rcases List.mem_cons.mp he with rfl | he
-    · simp only [Origin, entry]; exact ⟨trivial, hv⟩
+    · simp only [Origin, entry]; exact ⟨trivial, hv, trivial⟩
     · exact origin_of_sum (.inr (.inl rfl)) hv he
   · obtain ⟨o, ho, rfl⟩ := List.mem_map.mp h
-    simp only [Origin, entry]; exact ⟨trivial, mem_visibleAll ho⟩
+    simp only [Origin, entry]; exact ⟨trivial, mem_visibleAll ho, trivial⟩
   · obtain ⟨o, ho, rfl⟩ := List.mem_map.mp h
     simp only [Origin, link]; exact ⟨trivial, mem_visibleAll (List.mem_filter.mp ho).1⟩
   · split at h
@@ -1258,6 +1261,485 @@ theorem links_resolve {s : Sys} (w : WF s) {e : Emit} (h : e ∈ emits s) : reso
     | false => simp [resolves, resolvesIn, hlink]
     | true => exact resolves_of_visible w e hv (ctx_ok w hr hlink)
   · simp [resolves, resolvesIn, hl]
+
+
+/-! ### "View In Hierarchy": every class page's anchor is in classIndex.html -/
+
+/-- the class is kept in the `roots` dict of `findRootClasses` -/
+def Stored (r : Roots) (x : Nat) : Prop := ∃ kv, kv ∈ r ∧ x ∈ kv.2.classes
+
+def KeysNodup (r : Roots) : Prop := (r.map (·.1)).Nodup
+
+/-- a class stored on its own is stored under its qualified name -/
+def OnesKeyed (s : Sys) (r : Roots) : Prop := ∀ k x, (k, RootVal.one x) ∈ r → k = fullName s x ∧ x < s.n
+
+theorem rget_of_mem {r : Roots} (hn : KeysNodup r) {k : List Char} {v : RootVal} (h : (k, v) ∈ r) : rget r k = some v := by
+  induction r with
+  | nil => simp at h
+  | cons x r ih =>
+    obtain ⟨k', v'⟩ := x
+    unfold KeysNodup at hn
+    simp only [List.map_cons, List.nodup_cons] at hn
+    simp only [rget]
+    rcases List.mem_cons.mp h with h | h
+    · injection h with h1 h2; subst h1 h2; simp
+    · have hne : k' ≠ k := by
+        intro he; subst he
+        exact hn.1 (List.mem_map.mpr ⟨(k', v), h, rfl⟩)
+      simp only [hne, if_false]
+      exact ih hn.2 h
+
+theorem mem_rset' {r : Roots} {k : List Char} {v : RootVal} {kv : List Char × RootVal} (h : kv ∈ rset r k v) :
+    kv ∈ r ∨ kv = (k, v) := by
+  induction r with
+  | nil => simp [rset] at h; exact .inr h
+  | cons x r ih =>
+    obtain ⟨k', v'⟩ := x
+    simp only [rset] at h
+    split at h
+    · rename_i hk
+      rcases List.mem_cons.mp h with h | h
+      · exact .inr (by rw [h, hk])
+      · exact .inl (List.mem_cons_of_mem _ h)
+    · rcases List.mem_cons.mp h with h | h
+      · exact .inl (by rw [h]; exact List.mem_cons_self)
+      · rcases ih h with h | h
+        · exact .inl (List.mem_cons_of_mem _ h)
+        · exact .inr h
+
+theorem rset_keeps {r : Roots} {k : List Char} {v : RootVal} {kv : List Char × RootVal} (h : kv ∈ r) (hne : kv.1 ≠ k) :
+    kv ∈ rset r k v := by
+  induction r with
+  | nil => simp at h
+  | cons x r ih =>
+    obtain ⟨k', v'⟩ := x
+    simp only [rset]
+    split
+    · rename_i hk
+      rcases List.mem_cons.mp h with h | h
+      · subst h; exact absurd hk hne
+      · exact List.mem_cons_of_mem _ h
+    · rcases List.mem_cons.mp h with h | h
+      · subst h; exact List.mem_cons_self
+      · exact List.mem_cons_of_mem _ (ih h)
+
+theorem rset_has (r : Roots) (k : List Char) (v : RootVal) : (k, v) ∈ rset r k v := by
+  induction r with
+  | nil => simp [rset]
+  | cons x r ih =>
+    obtain ⟨k', v'⟩ := x
+    simp only [rset]
+    split
+    · rename_i hk; rw [hk]; exact List.mem_cons_self
+    · exact List.mem_cons_of_mem _ ih
+
+theorem rset_keys (r : Roots) (k : List Char) (v : RootVal) :
+    (rset r k v).map (·.1) = if k ∈ r.map (·.1) then r.map (·.1) else r.map (·.1) ++ [k] := by
+  induction r with
+  | nil => simp [rset]
+  | cons x r ih =>
+    obtain ⟨k', v'⟩ := x
+    simp only [rset]
+    by_cases hk : k' = k
+    · simp [hk]
+    · simp only [hk, if_false, List.map_cons, ih, List.mem_cons]
+      have : ¬ k = k' := fun h => hk h.symm
+      by_cases hm : k ∈ r.map (·.1)
+      · simp [hm]
+      · simp [hm, this]
+
+theorem rset_nodup {r : Roots} (hn : KeysNodup r) (k : List Char) (v : RootVal) : KeysNodup (rset r k v) := by
+  unfold KeysNodup at *
+  rw [rset_keys]
+  split
+  · exact hn
+  · rename_i hk
+    exact List.nodup_append.mpr ⟨hn, by simp, by
+      intro a ha b hb
+      simp only [List.mem_singleton] at hb
+      subst hb
+      intro he; subst he; exact hk ha⟩
+
+theorem stored_rset {r : Roots} (hn : KeysNodup r) {k : List Char} {v : RootVal} {x : Nat} (h : Stored r x)
+    (hsup : ∀ v0, rget r k = some v0 → ∀ y, y ∈ v0.classes → y ∈ v.classes) : Stored (rset r k v) x := by
+  obtain ⟨kv, hkv, hx⟩ := h
+  by_cases hk : kv.1 = k
+  · have : rget r k = some kv.2 := by
+      apply rget_of_mem hn
+      rw [← hk]
+      exact hkv
+    exact ⟨(k, v), rset_has r k v, hsup _ this _ hx⟩
+  · exact ⟨kv, rset_keeps hkv hk, hx⟩
+
+theorem stored_rset_new (r : Roots) (k : List Char) {v : RootVal} {x : Nat} (hx : x ∈ v.classes) : Stored (rset r k v) x :=
+  ⟨(k, v), rset_has r k v, hx⟩
+
+/-- the invariant of the `roots` dict -/
+structure RootsInv (s : Sys) (r : Roots) : Prop where
+  nodup : KeysNodup r
+  ones : OnesKeyed s r
+
+theorem onesKeyed_rset_many {s : Sys} {r : Roots} (h : OnesKeyed s r) (k : List Char) (l : List Nat) :
+    OnesKeyed s (rset r k (.many l)) := by
+  intro k' x hm
+  rcases mem_rset' hm with hm | hm
+  · exact h k' x hm
+  · injection hm with _ h2; cases h2
+
+theorem addBase_inv {s : Sys} {r : Roots} (h : RootsInv s r) (nm : List Char) (c : Nat) : RootsInv s (addBase r nm c) := by
+  unfold addBase
+  split <;> exact ⟨rset_nodup h.nodup _ _, onesKeyed_rset_many h.ones _ _⟩
+
+theorem addBase_stored_keep {s : Sys} {r : Roots} (h : RootsInv s r) (nm : List Char) (c : Nat) {x : Nat}
+    (hx : Stored r x) : Stored (addBase r nm c) x := by
+  unfold addBase
+  split
+  · rename_i k hk
+    exact stored_rset h.nodup hx (by
+      intro v0 hv0 y hy
+      rw [hk] at hv0; injection hv0 with hv0; subst hv0
+      simp only [RootVal.classes, List.mem_singleton] at hy
+      simp [RootVal.classes, hy])
+  · rename_i l hl
+    exact stored_rset h.nodup hx (by
+      intro v0 hv0 y hy
+      rw [hl] at hv0; injection hv0 with hv0; subst hv0
+      simp only [RootVal.classes] at hy ⊢
+      exact List.mem_append_left _ hy)
+  · rename_i hnone
+    exact stored_rset h.nodup hx (by
+      intro v0 hv0
+      rw [hnone] at hv0; cases hv0)
+
+theorem addBase_stored_new (r : Roots) (nm : List Char) (c : Nat) : Stored (addBase r nm c) c := by
+  unfold addBase
+  split <;> exact stored_rset_new _ _ (by simp [RootVal.classes])
+
+
+theorem rget_mem' {r : Roots} {k : List Char} {v : RootVal} (h : rget r k = some v) : (k, v) ∈ r := by
+  induction r with
+  | nil => simp [rget] at h
+  | cons x r ih =>
+    obtain ⟨k', v'⟩ := x
+    simp only [rget] at h
+    split at h
+    · rename_i hk; injection h with h; subst h; rw [hk]; exact List.mem_cons_self
+    · exact List.mem_cons_of_mem _ (ih h)
+
+/-- the body of the loop over `zip(cls.bases, cls.baseobjects)` -/
+def baseStep (s : Sys) (c : Nat) (r : Roots) (nb : Name × Option Nat) : Roots :=
+  match nb.2 with
+  | none => addBase r nb.1 c
+  | some b => if visible s b then r else addBase r nb.1 c
+
+theorem baseStep_inv {s : Sys} {c : Nat} {r : Roots} (h : RootsInv s r) (nb : Name × Option Nat) :
+    RootsInv s (baseStep s c r nb) := by
+  unfold baseStep
+  split
+  · exact addBase_inv h _ _
+  · split
+    · exact h
+    · exact addBase_inv h _ _
+
+theorem baseStep_keep {s : Sys} {c : Nat} {r : Roots} (h : RootsInv s r) (nb : Name × Option Nat) {x : Nat}
+    (hx : Stored r x) : Stored (baseStep s c r nb) x := by
+  unfold baseStep
+  split
+  · exact addBase_stored_keep h _ _ hx
+  · split
+    · exact hx
+    · exact addBase_stored_keep h _ _ hx
+
+theorem foldl_baseStep {s : Sys} {c : Nat} : ∀ (l : List (Name × Option Nat)) (r : Roots), RootsInv s r →
+    RootsInv s (l.foldl (baseStep s c) r) ∧ ∀ x, Stored r x → Stored (l.foldl (baseStep s c) r) x := by
+  intro l
+  induction l with
+  | nil => intro r h; exact ⟨h, fun _ hx => hx⟩
+  | cons nb l ih =>
+    intro r h
+    simp only [List.foldl_cons]
+    obtain ⟨h1, h2⟩ := ih _ (baseStep_inv h nb)
+    exact ⟨h1, fun x hx => h2 x (baseStep_keep h nb hx)⟩
+
+theorem rootStep_eq (s : Sys) (r : Roots) (c : Nat) :
+    rootStep s r c =
+      if hasSpace (s.ob c).name || !visible s c then r
+      else if (s.ob c).baseNames.isEmpty then
+        match rget r (fullName s c) with
+        | some (.many l) => rset r (fullName s c) (.many (l ++ [c]))
+        | _ => rset r (fullName s c) (.one c)
+      else ((s.ob c).baseNames.zip (s.ob c).bases).foldl (baseStep s c) r := by
+  rfl
+
+theorem rootStep_inv {s : Sys} {r : Roots} (h : RootsInv s r) (c : Nat) : RootsInv s (rootStep s r c) := by
+  rw [rootStep_eq]
+  split
+  · exact h
+  · rename_i hc
+    simp only [Bool.or_eq_true, Bool.not_eq_true', not_or, Bool.not_eq_true, Bool.not_eq_false] at hc
+    split
+    · split
+      · exact ⟨rset_nodup h.nodup _ _, onesKeyed_rset_many h.ones _ _⟩
+      · refine ⟨rset_nodup h.nodup _ _, ?_⟩
+        intro k x hm
+        rcases mem_rset' hm with hm | hm
+        · exact h.ones k x hm
+        · injection hm with h1 h2
+          injection h2 with h2
+          subst h1 h2
+          exact ⟨rfl, visible_lt hc.2⟩
+    · exact (foldl_baseStep _ _ h).1
+
+theorem rootStep_keep {s : Sys} (w : WF s) {r : Roots} (h : RootsInv s r) (c : Nat) {x : Nat} (hx : Stored r x) :
+    Stored (rootStep s r c) x := by
+  rw [rootStep_eq]
+  split
+  · exact hx
+  · rename_i hc
+    simp only [Bool.or_eq_true, Bool.not_eq_true', not_or, Bool.not_eq_true, Bool.not_eq_false] at hc
+    split
+    · split
+      · rename_i l hl
+        exact stored_rset h.nodup hx (by
+          intro v0 hv0 y hy
+          rw [hl] at hv0; injection hv0 with hv0; subst hv0
+          simp only [RootVal.classes] at hy ⊢
+          exact List.mem_append_left _ hy)
+      · rename_i hnot
+        exact stored_rset h.nodup hx (by
+          intro v0 hv0 y hy
+          cases v0 with
+          | many l => exact absurd hv0 (hnot l)
+          | one k' =>
+            simp only [RootVal.classes, List.mem_singleton] at hy ⊢
+            obtain ⟨hk, hlt⟩ := h.ones _ _ (rget_mem' hv0)
+            rw [hy]
+            exact w.names k' c hlt (visible_lt hc.2) hk.symm)
+    · exact (foldl_baseStep _ _ h).2 x hx
+
+theorem visBases_nil {s : Sys} {c : Nat} (h : visBases s c = []) {b : Nat} (hb : some b ∈ (s.ob c).bases) :
+    visible s b = false := by
+  unfold visBases at h
+  have := List.filterMap_eq_nil_iff.mp h (some b) hb
+  simp only at this
+  cases hv : visible s b with
+  | false => rfl
+  | true => simp [hv] at this
+
+/-- a listed class without a visible resolved base is put into the dict by its own loop iteration -/
+theorem rootStep_adds {s : Sys} {r : Roots} (h : RootsInv s r) {c : Nat} (hv : visible s c = true)
+    (hns : hasSpace (s.ob c).name = false) (hlen : (s.ob c).bases.length = (s.ob c).baseNames.length)
+    (hvb : visBases s c = []) : Stored (rootStep s r c) c := by
+  rw [rootStep_eq]
+  simp only [hns, hv, Bool.not_true, Bool.or_self, Bool.false_eq_true, if_false]
+  split
+  · split
+    · exact stored_rset_new _ _ (by simp [RootVal.classes])
+    · exact stored_rset_new _ _ (by simp [RootVal.classes])
+  · rename_i hne
+    cases hz : (s.ob c).baseNames.zip (s.ob c).bases with
+    | nil =>
+      exfalso
+      have hl := congrArg List.length hz
+      simp only [List.length_zip, List.length_nil] at hl
+      rw [hlen, Nat.min_self] at hl
+      exact hne (by simpa using List.eq_nil_of_length_eq_zero hl)
+    | cons nb l =>
+      simp only [List.foldl_cons]
+      have hnb : nb ∈ (s.ob c).baseNames.zip (s.ob c).bases := by rw [hz]; exact List.mem_cons_self
+      have hfirst : Stored (baseStep s c r nb) c := by
+        unfold baseStep
+        split
+        · exact addBase_stored_new _ _ _
+        · rename_i b hb
+          have hmem : some b ∈ (s.ob c).bases := by
+            have := (List.of_mem_zip (show (nb.1, nb.2) ∈ _ from hnb)).2
+            rw [hb] at this; exact this
+          rw [visBases_nil hvb hmem]
+          simp only [Bool.false_eq_true, if_false]
+          exact addBase_stored_new _ _ _
+      exact (foldl_baseStep l _ (baseStep_inv h nb)).2 c hfirst
+
+theorem foldl_rootStep {s : Sys} (w : WF s) : ∀ (l : List Nat) (r : Roots), RootsInv s r →
+    RootsInv s (l.foldl (rootStep s) r) ∧ ∀ x, Stored r x → Stored (l.foldl (rootStep s) r) x := by
+  intro l
+  induction l with
+  | nil => intro r h; exact ⟨h, fun _ hx => hx⟩
+  | cons c l ih =>
+    intro r h
+    simp only [List.foldl_cons]
+    obtain ⟨h1, h2⟩ := ih _ (rootStep_inv h c)
+    exact ⟨h1, fun x hx => h2 x (rootStep_keep w h c hx)⟩
+
+theorem stored_of_no_visBase {s : Sys} (w : WF s) {c : Nat} (hc : c ∈ classes s) (hv : visible s c = true)
+    (hns : hasSpace (s.ob c).name = false) (hlen : (s.ob c).bases.length = (s.ob c).baseNames.length)
+    (hvb : visBases s c = []) : Stored (findRootClasses s) c := by
+  unfold findRootClasses
+  obtain ⟨pre, post, hsplit⟩ := List.append_of_mem hc
+  rw [hsplit, List.foldl_append, List.foldl_cons]
+  have h0 : RootsInv s [] := ⟨by simp [KeysNodup], by intro k x h; simp at h⟩
+  have h1 := (foldl_rootStep w pre [] h0).1
+  exact (foldl_rootStep w post _ (rootStep_inv h1 c)).2 c (rootStep_adds h1 hv hns hlen hvb)
+
+/-! `subclassesFrom` -/
+
+theorem sf_self (s : Sys) (f c : Nat) : c ∈ subclassesFrom s (f+1) c := by
+  rw [subclassesFrom]; exact List.mem_cons_self
+
+theorem sf_mono (s : Sys) : ∀ f c x, x ∈ subclassesFrom s f c → x ∈ subclassesFrom s (f+1) c := by
+  intro f
+  induction f with
+  | zero => intro c x h; simp [subclassesFrom] at h
+  | succ f ih =>
+    intro c x h
+    rw [subclassesFrom] at h ⊢
+    rcases List.mem_cons.mp h with h | h
+    · exact h ▸ List.mem_cons_self
+    · obtain ⟨sc, hsc, hx⟩ := List.mem_flatMap.mp h
+      exact List.mem_cons_of_mem _ (List.mem_flatMap.mpr ⟨sc, hsc, ih sc x hx⟩)
+
+theorem sf_mono_le (s : Sys) {f g c x : Nat} (hle : f ≤ g) (h : x ∈ subclassesFrom s f c) : x ∈ subclassesFrom s g c := by
+  induction hle with
+  | refl => exact h
+  | step _ ih => exact sf_mono s _ c x ih
+
+theorem sf_step (s : Sys) : ∀ f r x y, x ∈ subclassesFrom s f r →
+    y ∈ ((s.ob x).subclasses.filter fun sc => !hasSpace (fullName s sc) && visible s sc) →
+    y ∈ subclassesFrom s (f+1) r := by
+  intro f
+  induction f with
+  | zero => intro r x y h; simp [subclassesFrom] at h
+  | succ f ih =>
+    intro r x y hx hy
+    rw [subclassesFrom] at hx
+    rw [subclassesFrom]
+    rcases List.mem_cons.mp hx with hx | hx
+    · subst hx
+      exact List.mem_cons_of_mem _ (List.mem_flatMap.mpr ⟨y, hy, sf_self s f y⟩)
+    · obtain ⟨sc, hsc, hxs⟩ := List.mem_flatMap.mp hx
+      exact List.mem_cons_of_mem _ (List.mem_flatMap.mpr ⟨sc, hsc, ih sc x y hxs hy⟩)
+
+/-- what `hierWf` says about one visible class -/
+structure GoodClass (s : Sys) (c : Nat) : Prop where
+  reg : c ∈ classes s
+  vis : visible s c = true
+  noSpace : hasSpace (s.ob c).name = false
+  noSpaceFull : hasSpace (fullName s c) = false
+  len : (s.ob c).bases.length = (s.ob c).baseNames.length
+  depth : (baseDepth s s.n c).isSome = true
+  bases : ∀ b, b ∈ visBases s c → (s.ob b).kind = .cls ∧ c ∈ (s.ob b).subclasses
+
+theorem visBases_visible {s : Sys} {c b : Nat} (h : b ∈ visBases s c) : visible s b = true := by
+  unfold visBases at h
+  obtain ⟨ob, _, hb⟩ := List.mem_filterMap.mp h
+  cases ob with
+  | none => simp at hb
+  | some b' =>
+    simp only at hb
+    split at hb
+    · rename_i hv; injection hb with hb; exact hb ▸ hv
+    · cases hb
+
+theorem goodClass_of_hierWf {s : Sys} (hw : hierWf s = true) {c : Nat} (hk : (s.ob c).kind = .cls)
+    (hv : visible s c = true) : GoodClass s c := by
+  unfold hierWf at hw
+  have := List.all_eq_true.mp hw c (List.mem_range.mpr (visible_lt hv))
+  simp only [hk, hv, beq_self_eq_true, Bool.and_self, Bool.not_true, Bool.false_or, Bool.and_eq_true,
+    List.contains_iff_mem, Bool.not_eq_true', beq_iff_eq, List.all_eq_true, decide_eq_true_eq] at this
+  obtain ⟨⟨⟨⟨⟨h1, h2⟩, h3⟩, h4⟩, h5⟩, h6⟩ := this
+  refine ⟨?_, hv, h2, h3, h4, h5, ?_⟩
+  · exact List.mem_filter.mpr ⟨h1, by simp [hk]⟩
+  · intro b hb
+    have := h6 b hb
+    exact ⟨this.1, this.2⟩
+
+theorem baseDepth_lt (s : Sys) : ∀ f c d, baseDepth s f c = some d → d < f := by
+  intro f
+  induction f with
+  | zero => intro c d h; simp [baseDepth] at h
+  | succ f ih =>
+    intro c d h
+    rw [baseDepth] at h
+    split at h
+    · injection h with h; omega
+    · rename_i b _ _
+      cases hb : baseDepth s f b with
+      | none => rw [hb] at h; cases h
+      | some db =>
+        rw [hb] at h
+        simp only [Option.map_some, Option.some.injEq] at h
+        have := ih b db hb
+        omega
+
+/-- every visible class is listed: below a class stored in the dict, at the depth of its chain of first
+visible bases -/
+theorem listed_of_depth {s : Sys} (w : WF s) (hw : hierWf s = true) : ∀ f c d, (s.ob c).kind = .cls →
+    visible s c = true → baseDepth s f c = some d →
+    ∃ r, Stored (findRootClasses s) r ∧ c ∈ subclassesFrom s (d+1) r := by
+  intro f
+  induction f with
+  | zero => intro c d _ _ h; simp [baseDepth] at h
+  | succ f ih =>
+    intro c d hk hv h
+    have g := goodClass_of_hierWf hw hk hv
+    rw [baseDepth] at h
+    split at h
+    · rename_i hvb
+      injection h with h
+      subst h
+      exact ⟨c, stored_of_no_visBase w g.reg hv g.noSpace g.len hvb, sf_self s 0 c⟩
+    · rename_i b rest hvb
+      cases hb : baseDepth s f b with
+      | none => rw [hb] at h; cases h
+      | some db =>
+        rw [hb] at h
+        simp only [Option.map_some, Option.some.injEq] at h
+        subst h
+        have hbm : b ∈ visBases s c := by rw [hvb]; exact List.mem_cons_self
+        obtain ⟨hbk, hsub⟩ := g.bases b hbm
+        obtain ⟨r, hr, hbr⟩ := ih b db hbk (visBases_visible hbm) hb
+        refine ⟨r, hr, sf_step s (db+1) r b c hbr ?_⟩
+        exact List.mem_filter.mpr ⟨hsub, by simp [g.noSpaceFull, hv]⟩
+
+/-- **C11** the "View In Hierarchy" link of every class page (`classIndex.html#<qualified name>`) leads to an
+anchor of classIndex.html: every visible class is listed there. -/
+theorem inhierarchy_resolves {s : Sys} (w : WF s) (hw : hierWf s = true) {x : File × Name} (h : x ∈ inHierarchy s) :
+    x.2 ∈ anchorsOf s (.summary .classIndex) := by
+  unfold inHierarchy at h
+  obtain ⟨p, hp, rfl⟩ := List.mem_map.mp h
+  obtain ⟨hpp, hk⟩ := List.mem_filter.mp hp
+  have hk' : (s.ob p).kind = .cls := by simpa using hk
+  have hv := visible_of_mem_pages hpp
+  have g := goodClass_of_hierWf hw hk' hv
+  cases hd : baseDepth s s.n p with
+  | none => have := g.depth; rw [hd] at this; cases this
+  | some d =>
+    obtain ⟨r, ⟨kv, hkv, hr⟩, hpr⟩ := listed_of_depth w hw s.n p d hk' hv hd
+    have hlt := baseDepth_lt s _ _ _ hd
+    have hpn : p ∈ subclassesFrom s s.n r := sf_mono_le s (by omega) hpr
+    unfold anchorsOf
+    simp only [if_true, List.mem_append]
+    left; right
+    refine List.mem_map.mpr ⟨p, ?_, rfl⟩
+    unfold classIndexListed
+    exact List.mem_flatMap.mpr ⟨kv, hkv, List.mem_flatMap.mpr ⟨r, hr, hpn⟩⟩
+
+/-- **C11** the letter links of nameIndex.html (`#X` under every other letter) lead to a letter heading -/
+theorem letter_links_resolve {s : Sys} {x : Char × Char} (h : x ∈ letterLinks s) :
+    [x.2] ∈ anchorsOf s (.summary .nameIndex) := by
+  unfold letterLinks at h
+  obtain ⟨l, _, hx⟩ := List.mem_flatMap.mp h
+  obtain ⟨o, ho, rfl⟩ := List.mem_map.mp hx
+  unfold anchorsOf
+  simp only [if_true, List.mem_append]
+  right
+  exact List.mem_map.mpr ⟨o, (List.mem_filter.mp ho).1, rfl⟩
+
+/-- every visible object (with a non-empty name) is filed under a letter that has a heading -/
+theorem letter_of_visible {s : Sys} {o : Nat} {c : Char} (h : o ∈ visibleAll s) (hc : initialOf s o = some c) :
+    c ∈ letters s := by
+  unfold letters
+  exact List.mem_eraseDups.mpr (List.mem_filterMap.mpr ⟨o, h, hc⟩)
 
 /-! ### historical counterexamples: how the statement failed before the fixes -/
 
